@@ -116,8 +116,7 @@ def _compat(chk, dom, n, classes):
     it = dom.it
     pvs = it.resolve(it.module("dep_logic.specifiers").ns["parse_version_specifier"])
     comp, _ = dom.EnvSpec.lookup("compatibility")
-    evp, _ = dom.EnvSpec.lookup("_evaluate_python")
-    chk.require(comp is not MISSING and evp is not MISSING, "anchor EnvSpec.compatibility/_evaluate_python missing")
+    chk.require(comp is not MISSING, "anchor EnvSpec.compatibility missing")
     cases = 0
     for rp_text in (">=3.8", "<3.8", "==3.7.*", ">=3.6,<3.10", "!=3.8.*", "<empty>"):
         rp = it.call(pvs, [rp_text], {})
@@ -128,7 +127,7 @@ def _compat(chk, dom, n, classes):
                 cases += 1
                 per = []
                 for p, a in itertools.product(ptags, atags):
-                    r = it.call(Bound(evp, spec), [p, a], {})
+                    r = dom.py_eval(spec, p, a)
                     if r is not None:
                         per.append(tuple(r))
                 exp = None if not per else max(per) + (-1,)
